@@ -1,17 +1,20 @@
 import Tickit.Model.RBFlush
+import Tickit.Model.RBFlushX
 import Tickit.Driver.RB
 /-
   Engine `rbflush` (C04).  Operations: everything of engine `rb` (drawing programs, see harness/rb.c) plus
     term TL TC ORACLE WS PEN SEED     a grid terminal TL x TC; ORACLE: bit k (mod 31) = "the cursor moves after the k-th
                                       erasech(…, MAYBE)"; WS=1: print goes through write_str; PEN: `NONE` or a pen set with
                                       tickit_term_setpen before the sentinel pattern (from SEED) is filled in
-    flush                             tickit_renderbuffer_flush_to_term
+    termx TL TC BUF CAPS PEN SEED     third configuration: the real xterm driver behind an output buffer of BUF bytes and an
+                                      output function that records the chunks; CAPS bit 0 = rgb8, bit 1 = ':' sub-parameters
+    flush                             tickit_renderbuffer_flush_to_term (third configuration: + tickit_term_flush)
   Observation of `flush`: the requests the driver received, cursor, terminal pen, the grid, and the buffer dump.
   The SPEC verdict of `flush` is `overlay (content of the buffer before) (grid before)` evaluated on the
   implementation's grid, cell by cell, plus "the buffer is reset".
 -/
 namespace Tickit.Driver.RBFlushEngine
-open Tickit Tickit.RB Tickit.RBFlush Tickit.Driver Tickit.Driver.RBEngine
+open Tickit Tickit.RB Tickit.RBFlush Tickit.RBFlushX Tickit.Driver Tickit.Driver.RBEngine
 
 /-! ### Printing (must agree byte for byte with harness/rbflush.c) -/
 
@@ -216,12 +219,131 @@ def specMFlush (rb : RB) (old : MockTerm) (impl : String) : String :=
         else ""
   | _ => if impl.startsWith "CRASH" then "the mock terminal crashed: " ++ impl else "malformed observation"
 
+/-! ### The xterm-driver configuration -/
+
+/-- The terminal of the third configuration: what its screen shows (the VT reading of every byte so far), the
+    capabilities the driver probed, the size of the output buffer and `tt->pen`. -/
+structure XTerm where
+  screen : XScreen
+  /-- C09's reference VT (Model/VT.lean) fed with the same bytes: the screen above must agree with it on what that
+      interpreter tracks - base code point, background and reverse video of every cell, the cursor, the pending wrap -/
+  vt : VT.VTState
+  caps : TermPen.Caps
+  buf : Nat
+  pen : Pen
+
+/-- `VT.run`, re-tabulated every 64 bytes (execution speed only). -/
+def vtRunFrom (vt : VT.VTState) : Nat → List UInt8 → VT.VTState
+  | _, [] => vt
+  | k, b :: rest => vtRunFrom (if k % 64 = 63 then (VT.step vt b).compact else VT.step vt b) (k + 1) rest
+
+def vtRun (vt : VT.VTState) (bs : List UInt8) : VT.VTState := (vtRunFrom vt 0 bs).compact
+
+def colrToVT : Sgr.Colr → Int
+  | .dflt => -1
+  | .idx n => n
+  | .rgb r g b => VT.rgbColour r g b
+
+/-- What C09's VT shows for a cell of the screen: the base code point (32 blank, 0 second half of a wide character). -/
+def xcellToVT (c : XCell) : Option VT.Cell :=
+  match c.glyph with
+  | .blank => some ⟨32, colrToVT c.attrs.bg, c.attrs.reverse⟩
+  | .wcont => some ⟨0, colrToVT c.attrs.bg, c.attrs.reverse⟩
+  | .chars bs => (Tickit.RB.Utf8.nextUtf8 bs 0 (some bs.length)).map fun d => ⟨d.cp, colrToVT c.attrs.bg, c.attrs.reverse⟩
+
+def showChunks (cs : List (List UInt8)) : String :=
+  if cs.isEmpty then "-" else ",".intercalate (cs.map fun c => if c.isEmpty then "." else bytesHex c)
+
+def parseChunks (s : String) : Option (List (List UInt8)) :=
+  if s = "-" then some [] else (s.splitOn ",").mapM fun c => if c = "." then some [] else hexBytes? c
+
+def showColr : Sgr.Colr → String
+  | .dflt => "default"
+  | .idx n => toString n
+  | .rgb r g b => s!"rgb({r},{g},{b})"
+
+/-- Rendering attributes on one line; only what differs from the default is listed besides the colours. -/
+def showXAttrs (a : Sgr.Attrs) : String :=
+  "<fg=" ++ showColr a.fg ++ ",bg=" ++ showColr a.bg ++
+  (if a.bold then ",bold" else "") ++ (if a.faint then ",faint" else "") ++ (if a.italic then ",italic" else "") ++
+  (if a.under != 0 then s!",under={a.under}" else "") ++ (if a.blink then ",blink" else "") ++
+  (if a.reverse then ",reverse" else "") ++ (if a.strike then ",strike" else "") ++
+  (if a.font != 0 then s!",font={a.font}" else "") ++
+  (match a.sizepos with | .normal => "" | .small => ",small" | .super => ",super" | .sub => ",sub") ++
+  (if a.junk != 0 then s!",junk={a.junk}" else "") ++ ">"
+
+def showXCell (c : XCell) : String := showGlyph c.glyph ++ " " ++ showXAttrs c.attrs ++ s!" w{c.writes}"
+
+/-- Self-check of the machinery: the screen of Model/RBFlushX.lean against C09's reference VT after the same bytes. -/
+def checkAgainstVT (s : XScreen) (vt : VT.VTState) : String :=
+  if s.row != vt.row || s.col != vt.col || s.pending != vt.pendingWrap then
+    s!"machinery: cursor ({s.row},{s.col},{s.pending}) but C09's reference VT has ({vt.row},{vt.col},{vt.pendingWrap})"
+  else
+    let cellsList := (List.range s.lines.toNat).flatMap fun l => (List.range s.cols.toNat).map fun c => (l, c)
+    let bad := cellsList.findSome? fun (l, c) =>
+      if xcellToVT (s.cells (l : Int) (c : Int)) == some (vt.grid (l : Int) (c : Int)) then none
+      else some s!"machinery: cell ({l},{c}) is [{showXCell (s.cells (l : Int) (c : Int))}] but C09's reference VT shows glyph {(vt.grid (l : Int) (c : Int)).glyph} bg {(vt.grid (l : Int) (c : Int)).bg} rv {(vt.grid (l : Int) (c : Int)).rv}"
+    bad.getD ""
+
+
+/-- The requests of the set-up of `termx`: the prior pen, the sentinel rows, the cursor. -/
+def xSetupReqs (tl tc : Nat) (pen : Option Pen) (seed : Nat) : List Req :=
+  (match pen with | none => [] | some p => [Req.setpen p]) ++
+  ((List.range tl).flatMap fun (l : Nat) =>
+    [Req.goto (l : Int) 0, Req.print ((List.range tc).map fun (c : Nat) => sentinel seed l c) 0 tc]) ++
+  [Req.goto ((seed % tl : Nat) : Int) (((seed / 7) % tc : Nat) : Int)]
+
+def newXTerm (tl tc buf : Nat) (caps : TermPen.Caps) (pen : Option Pen) (seed : Nat) : XTerm × String :=
+  let r := xflush caps 0 Pen.empty (xSetupReqs tl tc pen seed)
+  let scr := ((XScreen.fresh tl tc).run r.stream).zeroWrites.compact
+  let vt := vtRun (VT.VTState.init tl tc fun _ _ => VT.Cell.blank (-1)) r.stream
+  ({ screen := scr, vt := vt, caps := caps, buf := buf, pen := r.pen }, bytesHex r.stream)
+
+/-- `overlay` evaluated on the screen a VT shows after reading the bytes the output function was handed. -/
+def checkXGrid (caps : TermPen.Caps) (rb : RB) (old new : XScreen) : String :=
+  let cellsList := (List.range old.lines.toNat).flatMap fun l => (List.range old.cols.toNat).map fun c => (l, c)
+  let bad := cellsList.findSome? fun (l, c) =>
+    let w := want rb (l : Int) (c : Int)
+    let o := old.cells (l : Int) (c : Int)
+    let x := new.cells (l : Int) (c : Int)
+    if xcellOK caps w o x then none
+    else some (s!"cell ({l},{c}): want {showWant w}" ++
+      (match w with
+       | .glyph _ p => " = " ++ showXAttrs (expectAttrs caps p)
+       | .line _ p => " = " ++ showXAttrs (expectAttrs caps p)
+       | _ => "") ++
+      s!" over [{showXCell o}], the terminal shows [{showXCell x}]")
+  bad.getD ""
+
+def specXFlush (rb : RB) (t : XTerm) (impl : String) : String :=
+  match impl.splitOn " rb=" with
+  | [head, dump] =>
+    let ts := toks head
+    if !flushWFPb (fun _ => true) rb then "the buffer is not well-formed (FlushWFP fails): C03 invariant broken?"
+    else if field ts "r" != some "ok" then "flush did not complete"
+    else match (field ts "out").bind parseChunks, (field ts "fl").bind parseChunks with
+      | some during, some final =>
+        -- what the terminal has received, in the order it received it
+        let stream := during.flatten ++ final.flatten
+        let new := t.screen.run stream
+        if new.ps != .ground then "the byte stream ends inside a control sequence or a UTF-8 sequence"
+        else if new.unknown != t.screen.unknown then "the byte stream contains a control sequence the terminal does not know"
+        else if checkAgainstVT new (vtRun t.vt stream) != "" then checkAgainstVT new (vtRun t.vt stream)
+        else
+          let v := checkXGrid t.caps rb t.screen new
+          if v != "" then (if contentWithinB rb t.screen.cols t.screen.lines then v else beyondPrefix ++ v)
+          else if dump != showRB (resetExpected rb) then "buffer not reset after flush"
+          else ""
+      | _, _ => "unparsable chunks"
+  | _ => if impl.startsWith "CRASH" then "the flush crashed: " ++ impl else "malformed observation"
+
 /-! ### One step -/
 
 structure St where
   rb : Option RB := none
   term : Option GridTerm := none
   mterm : Option MockTerm := none
+  xterm : Option XTerm := none
   tl : Nat := 0
   tc : Nat := 0
   /-- the harness process of this history is dead (a sanitizer abort): every further operation answers `CRASH` -/
@@ -277,7 +399,7 @@ def step (st : St) (ts : List String) (impl : String) : St × String × String :
     match int? l, int? c with
     | some l, some c =>
       let rb := (RB.new l c garbage garbage).compact
-      ({ st with rb := some rb, crashed := false, term := none, mterm := none }, "r=- " ++ showRB rb, "")
+      ({ st with rb := some rb, crashed := false, term := none, mterm := none, xterm := none }, "r=- " ++ showRB rb, "")
     | _, _ => (st, "bad-op", "")
   | ["term", tl, tc, oracle, ws, pen, seed] =>
     match tl.toNat?, tc.toNat?, oracle.toNat?, ws.toNat?, seed.toNat? with
@@ -287,7 +409,7 @@ def step (st : St) (ts : List String) (impl : String) : St × String × String :
       | none => (st, "bad-op", "")
       | some pen =>
         let t := (newTerm tl tc oracle (ws != 0) pen seed).compact tl tc
-        ({ st with term := some t, mterm := none, tl := tl, tc := tc }, "r=- " ++ showTerm t tl tc, "")
+        ({ st with term := some t, mterm := none, xterm := none, tl := tl, tc := tc }, "r=- " ++ showTerm t tl tc, "")
     | _, _, _, _, _ => (st, "bad-op", "")
   | ["termm", tl, tc, pen, seed] =>
     match tl.toNat?, tc.toNat?, seed.toNat? with
@@ -298,9 +420,32 @@ def step (st : St) (ts : List String) (impl : String) : St × String × String :
       | some pen =>
         if tl = 0 ∨ tc = 0 then (st, "bad-op", "") else
         let t := (newMock tl tc pen seed).compact
-        ({ st with mterm := some t, term := none, tl := tl, tc := tc }, "r=- " ++ showMock t [], "")
+        ({ st with mterm := some t, term := none, xterm := none, tl := tl, tc := tc }, "r=- " ++ showMock t [], "")
     | _, _, _ => (st, "bad-op", "")
+  | ["termx", tl, tc, buf, caps, pen, seed] =>
+    match tl.toNat?, tc.toNat?, buf.toNat?, caps.toNat?, seed.toNat? with
+    | some tl, some tc, some buf, some caps, some seed =>
+      let pen? : Option (Option Pen) := if pen = "NONE" then some none else (parsePenBody pen).map some
+      match pen? with
+      | none => (st, "bad-op", "")
+      | some pen =>
+        if tl = 0 ∨ tc = 0 ∨ tl > 1000 ∨ tc > 1000 ∨ buf > 1000000 then (st, "bad-op", "") else
+        let c : TermPen.Caps := ⟨caps % 2 = 1, caps / 2 % 2 = 1⟩
+        let (t, out) := newXTerm tl tc buf c pen seed
+        ({ st with xterm := some t, term := none, mterm := none, tl := tl, tc := tc },
+          "r=- out=" ++ out ++ " pen=" ++ showPen t.pen ++ s!" caps={caps % 4}", "")
+    | _, _, _, _, _ => (st, "bad-op", "")
   | ["flush"] =>
+    match st.rb, st.xterm with
+    | some rb, some t =>
+      let res := flushToTerm rb
+      let x := xflush t.caps t.buf t.pen res.reqs
+      let rb' := res.rb.compact
+      let m := "r=" ++ showOutcome res.out ++ (if x.ok then "" else "-UB") ++ " out=" ++ showChunks x.during ++
+        " fl=" ++ showChunks (if x.final.isEmpty then [] else [x.final]) ++ " pen=" ++ showPen x.pen ++ " rb=" ++ showRB rb'
+      let t' := { t with screen := t.screen.run x.stream, vt := vtRun t.vt x.stream, pen := x.pen }
+      ({ st with rb := some rb', xterm := some t' }, m, specXFlush rb t impl)
+    | _, _ =>
     match st.rb, st.mterm with
     | some rb, some t =>
       let res := flushToTerm rb
